@@ -119,7 +119,8 @@ func (h HttpSigTransport) Dereference(c context.Context, iri *url.URL) ([]byte, 
 	req.Header.Add("Accept-Charset", "utf-8")
 	req.Header.Add("Date", h.clock.Now().UTC().Format("Mon, 02 Jan 2006 15:04:05")+" GMT")
 	req.Header.Add("User-Agent", fmt.Sprintf("%s %s", h.appAgent, h.gofedAgent))
-	req.Header.Set("Host", iri.Host)
+	// The host as it is sent: the URL's, without an empty port.
+	req.Header.Set("Host", req.Host)
 	h.getSignerMu.Lock()
 	err = h.getSigner.SignRequest(h.privKey, h.pubKeyId, req, nil)
 	h.getSignerMu.Unlock()
@@ -148,7 +149,8 @@ func (h HttpSigTransport) Deliver(c context.Context, b []byte, to *url.URL) erro
 	req.Header.Add("Accept-Charset", "utf-8")
 	req.Header.Add("Date", h.clock.Now().UTC().Format("Mon, 02 Jan 2006 15:04:05")+" GMT")
 	req.Header.Add("User-Agent", fmt.Sprintf("%s %s", h.appAgent, h.gofedAgent))
-	req.Header.Set("Host", to.Host)
+	// The host as it is sent: the URL's, without an empty port.
+	req.Header.Set("Host", req.Host)
 	h.postSignerMu.Lock()
 	// The signer gets the payload without its spare capacity: computing the
 	// digest appends to the slice it is given, which would write into the
